@@ -46,11 +46,12 @@ type Session struct {
 	cons      []string
 	quiet     bool
 	// BasePathFS: the base path (must never show up in results or errors) and whether it did during the call
-	BasePath string
-	leak     bool
-	SubDir   string   // directory of the Sub view the calls go through
-	SubDir2  string   // directory of a second view of the same parent ("" = none); calls with V == 8 go through it
-	FS2      avfs.VFS // the second view
+	BasePath  string
+	leak      bool
+	opHasBase bool     // an operand of the current call contains the base path as a string
+	SubDir    string   // directory of the Sub view the calls go through
+	SubDir2   string   // directory of a second view of the same parent ("" = none); calls with V == 8 go through it
+	FS2       avfs.VFS // the second view
 	// Inline makes Exec run the call on the calling goroutine (no per-call watchdog)
 	Inline bool
 	// ProjFS, when set, is the administrator's file system the projection reads through (the acting user may not
@@ -296,7 +297,7 @@ func (s *Session) checkLeak(err error) {
 }
 
 func (s *Session) leakIn(str string) {
-	if s.BasePath != "" && strings.Contains(str, s.BasePath) {
+	if s.BasePath != "" && !s.opHasBase && strings.Contains(str, s.BasePath) {
 		s.leak = true
 	}
 }
@@ -442,6 +443,8 @@ func (s *Session) exec(c Call, res *Res) {
 	}
 	p := s.render(c.P)
 	q := s.render(c.Q)
+	// a virtual path that itself spells the base path says nothing when it comes back
+	s.opHasBase = s.BasePath != "" && (strings.Contains(p, s.BasePath) || strings.Contains(q, s.BasePath))
 
 	setErr := func(err error) {
 		res.Err = ErrName(err)
